@@ -18,7 +18,8 @@ LEVEL = "exploration"
 COUNTS = {"quick": 6000, "thorough": 500000}
 RULE = ("seeded histories of 2-25 events from {execute, replug (optionally another device type), unplug, plug, arm close failure "
         "(raises-but-releases / raises-and-stays-open), arm CHECK CONDITION, re-open refused once by the OS, node vanishing between the "
-        "library's open() and its next system call, device returning under another kernel name, close} on SCSIDevice (detect_replugged "
+        "library's open() and its next system call, device returning under another kernel name, a facade built midway (its INQUIRY possibly failing), a second user "
+        "of the same node, close} with simulated time passing between the events (0 to a day), on SCSIDevice (detect_replugged "
         "on/off, read-only/read-write; named by node path or by a persistent symbolic link; built directly or by init_device; plain, `with device`, `with SCSI(device)`, left normally or by exception) and ISCSIDevice; biased to a replug "
         "right before a command and a close failure while a replug is pending. Non-trivial = at least one command was issued after a "
         "replug/unplug event; distinct = event digest")
@@ -34,7 +35,8 @@ ASSUMPTIONS = [
 ]
 AUX_NAME = "event histories (sequence of op kinds incl. fault flavours, without ids)"
 REQUIRED_PROBES = ["inode_number_reused", "reattach_same_device", "raw_sense_execute", "cmd_after_replug", "close_fails", "replug_and_close_fails", "unplug_detected", "with_exit_exception", "detect_off_kept_handle", "iscsi_disconnect_once",
-                   "symlink_path", "via_init_device", "link_retargeted", "reopen_refused_once", "vanished_mid_call"]
+                   "symlink_path", "via_init_device", "link_retargeted", "reopen_refused_once", "vanished_mid_call",
+                   "second_user", "facade_attached_midway", "facade_attach_failed", "changed_before_with"]
 
 PATH = "/dev/sg3"
 PATH2 = "/dev/sg4"
@@ -90,6 +92,15 @@ def gen_ops(rng, n):
             op = {"op": "reattach_same"}       # scsi(dev) with the device the facade already holds (re-runs type detection)
         if op["op"] == "execute" and rng.random() < 0.08:
             op["ioctl_errno"] = rng.choice([19, 6, 5])       # the binding's ioctl fails (ENODEV / ENXIO / EIO)
+        r3 = rng.random()
+        if r3 < 0.04:
+            # the application builds a facade on the device it already holds; the attach INQUIRY may meet a CHECK CONDITION
+            op = {"op": "attach_facade", "cc": rng.random() < 0.6}
+        elif r3 < 0.08:
+            # a second user in the same process opens the same node, uses it and closes it, while the first is still open
+            op = {"op": "second_user", "then_close": rng.random() < 0.8}
+        # simulated time that passes before this event (tight polling loops up to long idle periods)
+        op["dt"] = rng.choice([0, 0, 0.0005, 0.005, 0.05, 1, 60, 86400])
         ops.append(op)
     return ops
 
@@ -101,7 +112,9 @@ def generate(rng, idx, tier):
            "exit": rng.choice(["normal", "normal", "exception"]),
            "exit_exc": rng.choice(["custom", "custom", "OSError", "RuntimeError", "KeyError", "FileNotFoundError", "NotImplementedError", "KeyboardInterrupt"]),
            "close_at_end": rng.random() < 0.6,
-           "path": rng.choice(["node", "node", "node", "symlink"]), "via": rng.choice(["SCSIDevice", "SCSIDevice", "init_device"])}
+           "path": rng.choice(["node", "node", "node", "symlink"]), "via": rng.choice(["SCSIDevice", "SCSIDevice", "init_device"]),
+           # what happens to the node between building the device object and entering the with block
+           "before_with": rng.choice([None, None, None, "unplug", "replug"])}
     n = rng.choice([2, 3, 4, 5, 6, 8, 12, 25])
     return {"property": ID, "config": cfg, "ops": gen_ops(rng, n)}
 
@@ -143,13 +156,14 @@ def execute(prog):
         if cfg.get("via") == "init_device" and cfg["detect"]:
             from pyscsi.utils import init_device
             WORLD.probe("via_init_device")
-            kind, dev = worlds.outcome_of(lambda: init_device(DEV, cfg["readwrite"]))
+            make_device = lambda: init_device(DEV, cfg["readwrite"])
         else:
-            kind, dev = worlds.outcome_of(lambda: SCSIDevice(DEV, readwrite=cfg["readwrite"], detect_replugged=cfg["detect"]))
+            make_device = lambda: SCSIDevice(DEV, readwrite=cfg["readwrite"], detect_replugged=cfg["detect"])
+        kind, dev = worlds.outcome_of(make_device)
     if kind == "exc":
         raise RuntimeError("harness: device construction failed: %r" % (dev,))
     inos = [WORLD.lookup(DEV).ino] if sgio_mode_early else []
-    st = {"closed": False, "post_replug": False, "first_hid": 0, "cmds_after_event": 0, "explicit_close": False}
+    st = {"closed": False, "post_replug": False, "first_hid": 0, "cmds_after_event": 0, "explicit_close": False, "facade": None, "extra_devs": []}
     sgio_mode = cfg["transport"] == "sgio"
 
     def check_opens():
@@ -234,7 +248,7 @@ def execute(prog):
                                   actual="handle #%d opened on an earlier node (inode %s)" % (e["hid"], e.get("handle_ino"))))
                 # superseded handles have had close attempted
                 for h in WORLD.handles[:e["hid"]]:
-                    if h.close_calls == 0:
+                    if h.close_calls == 0 and not getattr(h, "other_user", False):
                         V.append(dict(oracle="C15.superseded-not-closed", where=where, detail="cmd",
                                       expected="superseded handle #%d closed before the command is sent" % h.hid, actual="close never attempted"))
             if st["post_replug"] and open_failed and not [e for e in opens if "hid" in e]:
@@ -245,12 +259,17 @@ def execute(prog):
                     V.append(dict(oracle="C15.stale-handle", where=where, detail="reopen-refused",
                                   expected="no command: the node was replaced and the re-open failed", actual="%d command(s) sent" % len(cmds)))
             elif st["post_replug"]:
-                # a replug was pending when this call started: exactly one fresh open on the current inode must have happened in it
-                ok_open = [e for e in opens if e.get("ino") == node.ino]
-                if not ok_open or opens[-1].get("ino") != node.ino:
+                # a replacement was pending when this call started: when it ends (however it ends) the device holds an open handle on
+                # the node now at the path - opened in this call or earlier (an implementation may look at the node in __enter__ or
+                # when a facade attaches), and any handle this call opened last is on that node
+                mine = [h for h in WORLD.handles if not h.closed and not getattr(h, "other_user", False) and h.node is node]
+                if not mine or (opens and opens[-1].get("ino") != node.ino):
                     V.append(dict(oracle="C15.no-fresh-handle", where=where, detail="close-failed" if closes_failed else "replug",
-                                  expected="a fresh open of %s on inode %d during this execute" % (DEV, node.ino),
-                                  actual="%d open(s): %s; outcome %s" % (len(opens), [e.get("ino") for e in opens], "ok" if kind == "ok" else type(val).__name__)))
+                                  expected="an open handle on the node now at %s (inode %d) after this execute" % (DEV, node.ino),
+                                  actual="%d open(s) in this call: %s; open handles of the device: %s; outcome %s" % (
+                                      len(opens), [e.get("ino") for e in opens],
+                                      [h.ino for h in WORLD.handles if not h.closed and not getattr(h, "other_user", False)],
+                                      "ok" if kind == "ok" else type(val).__name__)))
                 if closes_failed:
                     WORLD.probe("replug_and_close_fails")
                 if cmds:
@@ -291,9 +310,61 @@ def execute(prog):
                 summary.append("-")
                 continue
             WORLD.ev("op", i=i, **op)
+            if op.get("dt"):
+                WORLD.advance(op["dt"])
             if name == "execute":
-                kind, val = do_execute(op, scsi)
+                kind, val = do_execute(op, scsi if scsi is not None else st.get("facade"))
                 summary.append("x:%s" % ("ok" if kind == "ok" else type(val).__name__))
+            elif name == "attach_facade":
+                WORLD.armed.clear()
+                if op.get("cc") and sgio_mode:
+                    WORLD.arm({"kind": "status", "byte": 2, "sense": S.fixed(6, 0x29, 0).hex()})
+                node0 = WORLD.lookup(DEV) if sgio_mode else None
+                mark_ev = len(WORLD.events)
+                k0, v0 = worlds.outcome_of(lambda: SCSI(dev, blocksize=512))
+                if k0 == "ok":
+                    st["facade"] = v0
+                WORLD.probe("facade_attached_midway" if k0 == "ok" else "facade_attach_failed")
+                if sgio_mode and cfg["detect"] and st["post_replug"] and node0 is not None:
+                    # the attach INQUIRY went through the replug path
+                    opened = [e for e in WORLD.events[mark_ev:] if e["kind"] == "vfs.open" and "hid" in e and e.get("ino") == node0.ino]
+                    if opened:
+                        st["post_replug"] = False
+                # whatever happened to the INQUIRY, the device object stays the caller's: it is not closed behind their back
+                if sgio_mode and not st["closed"]:
+                    closes = [e for e in WORLD.events[mark_ev:] if e["kind"] == "vfs.close"]
+                    live = [h for h in WORLD.handles if not h.closed and not getattr(h, "other_user", False)]
+                    if not live and node0 is not None and not [e for e in closes if e.get("error")]:
+                        V.append(dict(oracle="C15.closed-behind-caller", where="attach/detect=%d" % cfg["detect"], detail="cc=%d" % bool(op.get("cc")),
+                                      expected="building a facade on a device leaves the device open (the caller owns it)",
+                                      actual="no open handle left after SCSI(device) %s" % ("failed with %s" % type(v0).__name__ if k0 == "exc" else "returned")))
+                summary.append("facade:%s" % ("ok" if k0 == "ok" else type(v0).__name__))
+            elif name == "second_user" and sgio_mode:
+                if WORLD.lookup(DEV) is None:
+                    summary.append("-")
+                    continue
+                WORLD.armed.clear()
+                mark_h = len(WORLD.handles)
+                k2, d2 = worlds.outcome_of(make_device)
+                for h in WORLD.handles[mark_h:]:
+                    h.other_user = True          # not a handle of the device object under observation
+                if k2 == "ok":
+                    cmd2 = TestUnitReady(d2.opcodes.TEST_UNIT_READY)
+                    mark_ev = len(WORLD.events)
+                    k3, v3 = worlds.outcome_of(lambda: d2.execute(cmd2))
+                    node2 = WORLD.lookup(DEV)
+                    for e in [e for e in WORLD.events[mark_ev:] if e["kind"] == "sgio.cmd" and "hid" in e]:
+                        if WORLD.handles[e["hid"]].node is not node2:
+                            V.append(dict(oracle="C15.wrong-node", where="second-user", detail="cmd",
+                                          expected="the second user's command goes to the node now at %s" % DEV, actual="handle #%d" % e["hid"]))
+                    if op.get("then_close"):
+                        worlds.outcome_of(lambda: d2.close())
+                    else:
+                        st["extra_devs"].append(d2)
+                    if d2 is dev:
+                        WORLD.probe("second_user_got_same_object")
+                    WORLD.probe("second_user")
+                summary.append("second:%s" % k2)
             elif name == "replug" and sgio_mode:
                 ino = None
                 if "reuse_ino" in op and len(inos) > op["reuse_ino"]:
@@ -346,7 +417,7 @@ def execute(prog):
                         st["post_replug"] = False       # the attach INQUIRY already went through the replug path
                     summary.append("reattach:%s" % ("ok" if k0 == "ok" else type(v0).__name__))
             elif name == "arm_close_fails" and sgio_mode:
-                live = [h for h in WORLD.handles if not h.closed]
+                live = [h for h in WORLD.handles if not h.closed and not getattr(h, "other_user", False)]
                 if live:
                     live[-1].close_fault = {"errno": op["errno"], "releases": op["releases"]}
                     if not op["releases"]:
@@ -368,6 +439,22 @@ def execute(prog):
             st["closed"] = True
             st["explicit_close"] = True
     else:
+        if cfg.get("before_with") and sgio_mode:
+            # the world moves between building the device object and entering the with block
+            if cfg["before_with"] == "unplug":
+                WORLD.unplug(loc["real"])
+            else:
+                inos.append(WORLD.replug(loc["real"], new_lu()).ino)
+            st["post_replug"] = True
+            WORLD.probe("changed_before_with")
+
+        def facade_built(mark_ev):
+            # the facade's INQUIRY was the first command after whatever happened before the block: it went through the replug path
+            if sgio_mode and cfg["detect"] and st["post_replug"]:
+                node_ = WORLD.lookup(DEV)
+                if node_ is not None and [e for e in WORLD.events[mark_ev:] if e["kind"] == "vfs.open" and "hid" in e and e.get("ino") == node_.ino]:
+                    st["post_replug"] = False
+
         def body():
             if mode == "with_device":
                 with dev:
@@ -378,15 +465,23 @@ def execute(prog):
             elif mode == "nested_with":
                 # `with device` around `with SCSI(device)`: both exits close; the OS handle must still be released exactly once
                 with dev:
-                    with SCSI(dev, blocksize=512) as s:
+                    mark_ev = len(WORLD.events)
+                    facade = SCSI(dev, blocksize=512)
+                    facade_built(mark_ev)
+                    with facade as s:
                         run_ops(s)
                         if cfg["exit"] == "exception":
                             WORLD.probe("with_exit_exception")
                             raise leave_exception(cfg)
             else:
-                if WORLD.lookup(DEV) is None and sgio_mode:
-                    return
-                with SCSI(dev, blocksize=512) as s:
+                mark_ev = len(WORLD.events)
+                try:
+                    facade = SCSI(dev, blocksize=512)
+                except BaseException:
+                    dev.close()          # the facade could not be built: the caller, who made the device, closes it
+                    raise
+                facade_built(mark_ev)
+                with facade as s:
                     run_ops(s)
                     if cfg["exit"] == "exception":
                         WORLD.probe("with_exit_exception")
@@ -401,6 +496,9 @@ def execute(prog):
         if kind == "exc" and cfg["exit"] == "exception" and not isinstance(val, (_Leave, OSError, type(leave_exception(cfg)))):
             V.append(dict(oracle="C15.with-exit", where=mode, detail=type(val).__name__,
                           expected="the with block re-raises the body's exception (or the close error)", actual=repr(val)[:100]))
+    for d2 in st["extra_devs"]:
+        if d2 is not dev:
+            worlds.outcome_of(lambda: d2.close())
     # release accounting
     if st["explicit_close"]:
         if sgio_mode:
